@@ -1,23 +1,44 @@
 """C17 correspondence: observables_restricted_to_subsystem, decompose_observables,
-expand_observables  vs  Model/Observables.v."""
+expand_observables  vs  Model/Observables.v.
+
+Every call of the implementation is recorded as an OUTCOME (ok / refused / crashed) -- generation never
+asserts on what the implementation does.  Circuits of the expand stream are described by a replayable
+LAYOUT (list of build operations over numbered bit objects) stored in the JSON case, so that `rerun`
+rebuilds the same registers / loose bits / classical bits / overlaps / transform calls.
+"""
 from __future__ import annotations
 
+import os
+import re
+import traceback
+
 import numpy as np
-from qiskit.circuit import QuantumCircuit, QuantumRegister, Qubit, ClassicalRegister
+from qiskit.circuit import (QuantumCircuit, QuantumRegister, Qubit, ClassicalRegister, AncillaRegister,
+                            AncillaQubit, Clbit)
 from qiskit.quantum_info import Pauli, PauliList
 
 from qiskit_addon_cutting.utils.observable_grouping import observables_restricted_to_subsystem
 from qiskit_addon_cutting.cutting_decomposition import decompose_observables
-from qiskit_addon_cutting.wire_cutting_transforms import expand_observables, cut_wires
+from qiskit_addon_cutting.wire_cutting_transforms import expand_observables, cut_wires, _transform_cuts_to_moves
 from qiskit_addon_cutting.instructions import CutWire
 
-from common import CaseWriter, Res, Raw, Interner, call_canon, tagged, untag
+from common import CaseWriter, Res, Raw, Opt, Interner, call_canon, tagged, untag
 
 IMPORTS = "From CKT Require Import Common.Base Model.Observables Corr.C17Corr."
+CASE_TYPES = {
+    "chk_restrict": "bool * nat * list nat * list pauli * res (list pauli)",
+    "chk_decompose": "bool * nat * list nat * list pauli * res (list (nat * list pauli))",
+    "chk_expand": "nat * list nat * list nat * list pauli * res (list pauli) * option (option refusal)",
+}
 LET = {(False, False): 0, (True, False): 1, (True, True): 2, (False, True): 3}
 LETTERS = "IXYZ"  # model code -> letter
+XBIT = [False, True, True, False]
+ZBIT = [False, False, True, True]
 
 
+# ----------------------------------------------------------------------------------------------
+# canonical forms
+# ----------------------------------------------------------------------------------------------
 def canon_pauli(p: Pauli):
     x = [bool(b) for b in p.x]
     z = [bool(b) for b in p.z]
@@ -32,210 +53,657 @@ def coq_pauli(c):
     return Raw(f"(P {c[0]} [{'; '.join(str(l) for l in c[1])}])")
 
 
-def mk_pauli(phase, lets):
-    # lets indexed by qubit; qiskit labels are big-endian
-    label = "".join(LETTERS[l] for l in reversed(lets))
-    p = Pauli(label)
-    p.phase = phase
-    return p
+def mk_plist(n, canon):
+    """PauliList with len(canon) rows on n qubits (n = 0 and zero rows are legal) from [(phase, letters)]."""
+    k = len(canon)
+    z = np.zeros((k, n), dtype=bool)
+    x = np.zeros((k, n), dtype=bool)
+    ph = np.zeros(k, dtype=int)
+    for r, (p, lets) in enumerate(canon):
+        ph[r] = p
+        for q, l in enumerate(lets):
+            x[r, q] = XBIT[l]
+            z[r, q] = ZBIT[l]
+    return PauliList.from_symplectic(z, x, ph)
 
 
-def rand_plist(rng, n, k, phases=True):
-    ps = []
-    for _ in range(k):
-        lets = [int(rng.integers(0, 4)) for _ in range(n)]
-        ph = int(rng.integers(0, 4)) if phases else 0
-        ps.append(mk_pauli(ph, lets))
-    return PauliList(ps)
+def rand_canon(rng, n, k):
+    return [(int(rng.integers(0, 4)), [int(rng.integers(0, 4)) for _ in range(n)]) for _ in range(k)]
 
 
-LABEL_POOL = [0, 1, 2, "A", "B", "foo", (1, 2), ("a", 0), None, 3.5, True, frozenset([1]), -7, ""]
+def rand_k(rng, kmax):
+    """number of observables: 0 (empty list) in about 7% of the draws, else 1..kmax"""
+    return 0 if rng.integers(0, 14) == 0 else int(rng.integers(1, kmax + 1))
 
 
-def res_of(r, conv):
-    if r[0] == "ok":
-        return Res("ok", conv(r[1]))
-    return Res(r[0])
+def rand_n(rng, nmax=8):
+    """number of qubits 0..nmax, the boundary values 0 and nmax over-represented"""
+    r = int(rng.integers(0, 12))
+    if r == 0:
+        return 0
+    if r == 1:
+        return nmax
+    return int(rng.integers(0, nmax + 1))
 
 
-def generate(rng, tier, outdir):
-    w = CaseWriter(outdir, IMPORTS)
-    n_restrict = 400 if tier == "quick" else 6000
-    n_decomp = 300 if tier == "quick" else 5000
-    n_expand = 400 if tier == "quick" else 6000
+LABEL_POOL = [0, 1, 2, "A", "B", "foo", (1, 2), ("a", 0), None, 3.5, True, frozenset([1]), -7, "",
+              False, 0.0, 1.0, 2.0, "a", (), (None,), 10**20]
 
-    # ---- restrict ----
-    for it in range(n_restrict):
-        n = int(rng.integers(1, 9))
-        k = int(rng.integers(1, 5))
-        pl = rand_plist(rng, n, k)
-        mode = rng.integers(0, 10)
-        if mode < 6:  # subset in random order
-            m = int(rng.integers(0, n + 1))
-            qs = [int(q) for q in rng.permutation(n)[:m]]
-        elif mode < 8:  # with repeats
-            qs = [int(q) for q in rng.integers(0, n, size=int(rng.integers(1, n + 3)))]
-        elif mode < 9:  # all, reversed
-            qs = list(range(n))[::-1]
-        else:  # out of range (malformed stream)
-            qs = [int(q) for q in rng.integers(0, n + 2, size=int(rng.integers(1, 4)))] + [n + int(rng.integers(0, 3))]
-        aslist = bool(rng.integers(0, 4) == 0)
-        arg = list(pl) if aslist else pl
-        r = call_canon(observables_restricted_to_subsystem, qs, arg)
-        exp = res_of(r, lambda v: [coq_pauli(c) for c in canon_plist(v)])
-        cin = canon_plist(pl)
-        w.add(
-            "restrict",
-            "chk_restrict",
-            (n, qs, [coq_pauli(c) for c in cin], exp),
-            dict(kind="restrict", n=n, qs=qs, paulis=cin, aslist=aslist, impl=[r[0], canon_plist(r[1]) if r[0] == "ok" else r[1]]),
-            nontrivial=(len(qs) > 0 and r[0] == "ok"),
-        )
-        w.count("restrict.n", n)
-        w.count("restrict.outcome", r[0])
-        w.count("restrict.path", "list" if aslist else "PauliList")
 
-    # ---- decompose_observables ----
-    for it in range(n_decomp):
-        n = int(rng.integers(1, 9))
-        nl = int(rng.integers(1, 5))
-        pool = [LABEL_POOL[i] for i in rng.permutation(len(LABEL_POOL))[:nl]]
-        labels = [pool[int(rng.integers(0, nl))] for _ in range(n)]
-        k = int(rng.integers(1, 4))
-        pl = rand_plist(rng, n, k)
-        intern = Interner()
-        lab_ids = [intern(l) for l in labels]
-        r = call_canon(decompose_observables, pl, labels)
-        assert r[0] == "ok", r
-        exp = [(intern(l), [coq_pauli(c) for c in canon_plist(v)]) for l, v in r[1].items()]
-        cin = canon_plist(pl)
-        w.add(
-            "decompose",
-            "chk_decompose",
-            (lab_ids, [coq_pauli(c) for c in cin], exp),
-            dict(kind="decompose", labels=[tagged(l) for l in labels], paulis=cin,
-                 impl=[[tagged(l), canon_plist(v)] for l, v in r[1].items()]),
-            nontrivial=(len(set(lab_ids)) > 1),
-        )
-        w.count("decompose.nlabels", len(set(lab_ids)))
+def outcome(r, conv):
+    """('ok', v) -> ['ok', conv(v)];  ('refused'|'crashed', msg) -> [status, msg]; a conv failure is recorded, not raised"""
+    if r[0] != "ok":
+        return [r[0], r[1]]
+    try:
+        return ["ok", conv(r[1])]
+    except Exception as e:  # noqa: BLE001  the implementation returned something that is not the documented container
+        return ["crashed", f"unreadable return value {type(r[1]).__name__}: {type(e).__name__}: {str(e)[:120]}"]
 
-    # ---- expand ----
-    for it in range(n_expand):
-        n = int(rng.integers(0, 7)) if rng.integers(0, 10) == 0 else int(rng.integers(1, 7))
-        mode = int(rng.integers(0, 10))
-        # original circuit: several registers and loose bits
-        oc = QuantumCircuit()
-        left = n
-        ri = 0
-        while left > 0:
-            s = int(rng.integers(1, left + 1))
-            if rng.integers(0, 3) == 0:
-                oc.add_bits([Qubit() for _ in range(s)])
-            else:
-                oc.add_register(QuantumRegister(s, f"r{ri}"))
-                ri += 1
-            left -= s
-        k = int(rng.integers(1, 4))
-        nobs = n
-        if mode == 8:  # qubit-count mismatch
-            nobs = max(0, n + int(rng.choice([-1, 1, 2])))
-        if nobs == 0:
-            continue
-        pl = rand_plist(rng, nobs, k)
-        if mode < 4 and n >= 1:
-            # realistic: via cut_wires with markers
-            qc = oc.copy()
-            for _ in range(int(rng.integers(0, 5))):
-                q = int(rng.integers(0, n))
-                if rng.integers(0, 2):
-                    qc.h(q)
-                qc.append(CutWire(), [q])
-            rcw = call_canon(cut_wires, qc)
-            w.count("expand.cut_wires_call", rcw[0])
-            if rcw[0] != "ok":
-                # cut_wires itself misbehaved on this marker pattern: that is C03's business; skip here
-                continue
-            fc = rcw[1]
-            oc_used = qc
+
+def res_of(o, conv):
+    return Res("ok", conv(o[1])) if o[0] == "ok" else Res(o[0])
+
+
+# ----------------------------------------------------------------------------------------------
+# restrict
+# ----------------------------------------------------------------------------------------------
+QFORMS = ["list", "list", "list", "tuple", "range", "ndarray", "npints"]
+
+
+def qubits_arg(qs, form, qrange=None):
+    if form == "tuple":
+        return tuple(qs)
+    if form == "range":
+        return range(*qrange)
+    if form == "ndarray":
+        return np.array(qs, dtype=np.int64)
+    if form == "npints":
+        return [np.int64(q) for q in qs]
+    return list(qs)
+
+
+def call_restrict(case):
+    pl = mk_plist(case["n"], case["paulis"])
+    arg = list(pl) if case["aslist"] else pl
+    r = call_canon(observables_restricted_to_subsystem, qubits_arg(case["qs"], case["qform"], case.get("qrange")), arg)
+    case["impl"] = outcome(r, canon_plist)
+    return case
+
+
+def gen_restrict(rng, w, cases, it):
+    n = rand_n(rng)
+    k = rand_k(rng, 5)
+    cin = rand_canon(rng, n, k)
+    mode = int(rng.integers(0, 20))
+    qform = QFORMS[int(rng.integers(0, len(QFORMS)))]
+    qrange = None
+    if qform == "range":
+        a, b = sorted(int(v) for v in rng.integers(0, n + 1, size=2))
+        st = int(rng.integers(1, 4))
+        qrange = [a, b, st] if rng.integers(0, 2) else [b - 1, a - 1, -st]  # ascending a..b-1 / descending b-1..a
+        qs = list(range(*qrange))
+        kind = "range"
+    elif mode < 12 or n == 0:  # subset in random order (incl. empty, full permutations)
+        m = int(rng.integers(0, n + 1))
+        if rng.integers(0, 4) == 0:
+            m = n
+        qs = [int(q) for q in rng.permutation(n)[:m]]
+        kind = "subset"
+    elif mode < 14:  # with repeats (outside the property's "subsets": recorded, compared with the model, not judged)
+        qs = [int(q) for q in rng.integers(0, n, size=int(rng.integers(1, n + 3)))]
+        kind = "repeats"
+    elif mode < 16:  # all, reversed / ascending
+        qs = list(range(n))[::-1] if rng.integers(0, 2) else list(range(n))
+        kind = "all"
+    else:  # out of range (malformed stream)
+        qs = [int(q) for q in rng.integers(0, n + 2, size=int(rng.integers(0, 4)))] + [n + int(rng.integers(0, 3))]
+        if rng.integers(0, 2):
+            qs = qs[::-1]
+        kind = "out_of_range"
+    if n == 0 and mode >= 18 and qform != "range":  # 0-qubit observables, any index is out of range
+        qs = [int(rng.integers(0, 2))]
+        kind = "out_of_range"
+    aslist = bool(rng.integers(0, 3) == 0)
+    case = dict(kind="restrict", n=n, qs=qs, qform=qform, qrange=qrange, paulis=[[p, l] for p, l in cin], aslist=aslist)
+    call_restrict(case)
+    o = case["impl"]
+    exp = res_of(o, lambda v: [coq_pauli(c) for c in v])
+    w.add("restrict", "chk_restrict", (aslist, n, qs, [coq_pauli(c) for c in cin], exp), case,
+          nontrivial=(len(qs) > 0 and k > 0 and o[0] == "ok"))
+    cases.append(case)
+    w.count("restrict.n", n)
+    w.count("restrict.k", k)
+    w.count("restrict.request", kind)
+    w.count("restrict.outcome", o[0])
+    w.count("restrict.path", "list" if aslist else "PauliList")
+    w.count("restrict.qubits_arg", qform)
+
+
+# ----------------------------------------------------------------------------------------------
+# decompose_observables
+# ----------------------------------------------------------------------------------------------
+def call_decompose(case):
+    pl = mk_plist(case["n"], case["paulis"])
+    arg = list(pl) if case["aslist"] else pl
+    labels = [untag(t) for t in case["labels"]]
+    r = call_canon(decompose_observables, arg, labels)
+    case["impl"] = outcome(r, lambda d: [[tagged(l), canon_plist(v)] for l, v in d.items()])
+    return case
+
+
+def gen_decompose(rng, w, cases, it):
+    n = rand_n(rng)
+    mode = int(rng.integers(0, 12))
+    nlab = n
+    if mode == 0:  # more labels than qubits: the out-of-range index inside decompose (IndexError)
+        nlab = n + int(rng.integers(1, 3))
+    elif mode == 1 and n > 0:  # fewer labels than qubits: not validated by the source, trailing qubits dropped
+        nlab = int(rng.integers(0, n))
+    if mode in (2, 3):  # every qubit its own partition / up to 8 distinct labels
+        nl = max(1, nlab)
+    else:
+        nl = int(rng.integers(1, 6))
+    pool = [LABEL_POOL[i] for i in rng.permutation(len(LABEL_POOL))[:nl]]
+    if mode in (2, 3):
+        # distinct as dict keys: drop ==/hash duplicates (0/False/0.0, 1/True/1.0), then a permutation of them
+        uniq = list({l: None for l in pool}.keys())
+        labels = [uniq[i % len(uniq)] for i in range(nlab)]
+        labels = [labels[i] for i in rng.permutation(len(labels))]
+    else:
+        labels = [pool[int(rng.integers(0, nl))] for _ in range(nlab)]
+    k = rand_k(rng, 4)
+    cin = rand_canon(rng, n, k)
+    aslist = bool(rng.integers(0, 4) == 0)
+    intern = Interner()
+    lab_ids = [intern(l) for l in labels]
+    case = dict(kind="decompose", n=n, labels=[tagged(l) for l in labels], paulis=[[p, l] for p, l in cin], aslist=aslist)
+    call_decompose(case)
+    o = case["impl"]
+    exp = res_of(o, lambda v: [(intern(untag(t)), [coq_pauli(c) for c in pv]) for t, pv in v])
+    w.add("decompose", "chk_decompose", (aslist, n, lab_ids, [coq_pauli(c) for c in cin], exp), case,
+          nontrivial=(len(set(lab_ids)) > 1 and k > 0 and o[0] == "ok"))
+    cases.append(case)
+    w.count("decompose.n", n)
+    w.count("decompose.k", k)
+    w.count("decompose.nlabels", len(set(lab_ids)))
+    w.count("decompose.len_labels", "== n" if nlab == n else ("> n" if nlab > n else "< n"))
+    w.count("decompose.outcome", o[0])
+    w.count("decompose.path", "list" if aslist else "PauliList")
+
+
+# ----------------------------------------------------------------------------------------------
+# expand: replayable circuit layouts
+#   op ["bits", [ids]]                     add loose qubits (AncillaQubit when the id is in `anc`)
+#   op ["reg", name, kind, [ids]]          add a NEW register owning its bits  (kind "q" QuantumRegister / "a" AncillaRegister)
+#   op ["regbits", name, kind, [ids]]      add a register built over listed bits (existing -> overlap, or new loose ones)
+#   op ["regref", name]                    add the SAME register object that an earlier op (of either circuit) created
+#   op ["clbits", m] / ["creg", name, m]   classical bits / a classical register
+# ----------------------------------------------------------------------------------------------
+class Table:
+    def __init__(self, anc):
+        self.bits = {}
+        self.regs = {}
+        self.anc = set(anc)
+
+    def bit(self, i):
+        if i not in self.bits:
+            self.bits[i] = AncillaQubit() if i in self.anc else Qubit()
+        return self.bits[i]
+
+
+def build_circuit(ops, tab):
+    qc = QuantumCircuit()
+    for op in ops:
+        t = op[0]
+        if t == "bits":
+            qc.add_bits([tab.bit(i) for i in op[1]])
+        elif t == "reg":
+            _, name, kind, ids = op
+            reg = AncillaRegister(len(ids), name) if kind == "a" else QuantumRegister(len(ids), name)
+            for i, b in zip(ids, reg):
+                tab.bits[i] = b
+            tab.regs[name] = reg
+            qc.add_register(reg)
+        elif t == "regbits":
+            _, name, kind, ids = op
+            bits = [tab.bit(i) for i in ids]
+            reg = AncillaRegister(bits=bits, name=name) if kind == "a" else QuantumRegister(bits=bits, name=name)
+            tab.regs[name] = reg
+            qc.add_register(reg)
+        elif t == "regref":
+            qc.add_register(tab.regs[op[1]])
+        elif t == "clbits":
+            qc.add_bits([Clbit() for _ in range(op[1])])
+        elif t == "creg":
+            qc.add_register(ClassicalRegister(op[2], op[1]))
         else:
-            nf = int(rng.integers(0, 4))
-            bits = list(oc.qubits) + [Qubit() for _ in range(nf)]
-            if mode == 9 and n >= 1:  # a missing qubit
-                drop = int(rng.integers(0, n))
-                bits.pop(drop)
-            perm = rng.permutation(len(bits))
-            bits = [bits[i] for i in perm]
-            fc = QuantumCircuit()
-            # spread across loose bits and a register
-            cut = int(rng.integers(0, len(bits) + 1))
-            fc.add_bits(bits[:cut])
-            if bits[cut:]:
-                fc.add_register(QuantumRegister(bits=bits[cut:]))
-            oc_used = oc
-        ids = Interner()
-        oq = [ids(q) for q in oc_used.qubits]
-        fq = [ids(q) for q in fc.qubits]
-        r = call_canon(expand_observables, pl, oc_used, fc)
-        exp = res_of(r, lambda v: [coq_pauli(c) for c in canon_plist(v)])
-        cin = canon_plist(pl)
-        w.add(
-            "expand",
-            "chk_expand",
-            (nobs, oq, fq, [coq_pauli(c) for c in cin], exp),
-            dict(kind="expand", nobs=nobs, oq=oq, fq=fq, paulis=cin,
-                 impl=[r[0], canon_plist(r[1]) if r[0] == "ok" else r[1]]),
-            nontrivial=(r[0] == "ok" and len(fq) > len(oq)),
-        )
-        w.count("expand.outcome", r[0])
-        w.count("expand.mode", "cut_wires" if (mode < 4 and n >= 1) else ("mismatch" if mode == 8 else "missing" if mode == 9 else "interleave"))
+            raise ValueError(op)
+    return qc
+
+
+def apply_gates(qc, gates):
+    for g in gates:
+        if g[0] == "h":
+            qc.h(g[1])
+        elif g[0] == "cx":
+            qc.cx(g[1], g[2])
+        elif g[0] == "cut":
+            qc.append(CutWire(), [g[1]])
+        elif g[0] == "measure":
+            qc.measure(g[1], g[2])
+        else:
+            raise ValueError(g)
+
+
+TRANSFORMS = {
+    "cut_wires": cut_wires,
+    "cuts_to_moves": _transform_cuts_to_moves,
+    "cut_wires_then_moves": lambda c: _transform_cuts_to_moves(cut_wires(c)),
+}
+
+RE_COUNT = re.compile(r"^The `observables` and `original_circuit` must have the same number of qubits\. \((\d+) != (\d+)\)$")
+RE_MISSING = re.compile(r"^The (\d+)-th qubit of the `original_circuit` cannot be found in the `final_circuit`\.$")
+PKG_DIR = os.sep + "qiskit_addon_cutting" + os.sep
+
+
+def call_expand(pl, oc, fc):
+    """-> (outcome [status, payload], info) ; info attributes a refusal to the frame that raised it"""
+    try:
+        v = expand_observables(pl, oc, fc)
+    except Exception as e:  # noqa: BLE001
+        tb = traceback.extract_tb(e.__traceback__)
+        inner = tb[-1].filename if tb else ""
+        msg = str(e)
+        line = (tb[-1].line or "").strip() if tb else ""
+        # the package's own guard = the innermost frame is a `raise` statement of the package (a numpy broadcast error
+        # surfaces in a package frame too -- at the assignment `z[:, mapping] = observables.z` -- and is NOT a guard)
+        info = dict(exc=type(e).__name__, msg=msg[:200], raised_in=os.path.basename(inner), raised_at=line[:80],
+                    own_guard=bool(PKG_DIR in inner and line.startswith("raise")), reason=None)
+        if isinstance(e, ValueError):
+            m1, m2 = RE_COUNT.match(msg), RE_MISSING.match(msg)
+            if info["own_guard"] and m1:
+                info["reason"] = ["count", int(m1.group(1)), int(m1.group(2))]
+            elif info["own_guard"] and m2:
+                info["reason"] = ["missing", int(m2.group(1))]
+            return ["refused", msg[:200]], info
+        return ["crashed", f"{type(e).__name__}: {msg[:200]}"], info
+    return outcome(("ok", v), canon_plist), dict(exc=None, msg="", raised_in="", raised_at="", own_guard=None, reason=None)
+
+
+def run_expand(case):
+    """(re)build both circuits from the stored layout, call the implementation, fill in oq/fq/impl"""
+    tab = Table(case["anc"])
+    oc = build_circuit(case["oc_ops"], tab)
+    apply_gates(oc, case.get("gates") or [])
+    case["transform_outcome"] = None
+    if case.get("via"):
+        r = call_canon(TRANSFORMS[case["via"]], oc)
+        case["transform_outcome"] = r[0]
+        if r[0] != "ok":
+            case["impl"] = None
+            return case
+        fc = r[1]
+    elif case.get("same_object"):
+        fc = oc
+    else:
+        fc = build_circuit(case["fc_ops"], tab)
+    ids = Interner()
+    case["oq"] = [ids(q) for q in oc.qubits]
+    case["fq"] = [ids(q) for q in fc.qubits]
+    case["shape"] = dict(o_clbits=oc.num_clbits, f_clbits=fc.num_clbits, o_anc=oc.num_ancillas, f_anc=fc.num_ancillas,
+                         o_qregs=len(oc.qregs), f_qregs=len(fc.qregs), o_cregs=len(oc.cregs), f_cregs=len(fc.cregs),
+                         o_width=oc.width(), f_width=fc.width())
+    pl = mk_plist(case["nobs"], case["paulis"])
+    o, info = call_expand(pl, oc, fc)
+    case["impl"] = o
+    case["refusal"] = info
+    return case
+
+
+def rand_layout_original(rng, n, names):
+    """ops for an n-qubit circuit: registers owning their bits, ancilla registers, loose (ancilla) bits, an
+    overlapping register, classical bits/registers.  Returns (ops, ids in build order, anc ids)."""
+    ops, ids, anc = [], [], []
+    left, nxt = n, 0
+    while left > 0:
+        s = int(rng.integers(1, left + 1))
+        chunk = list(range(nxt, nxt + s))
+        t = int(rng.integers(0, 8))
+        if t < 2:
+            ops.append(["bits", chunk])
+        elif t < 5:
+            ops.append(["reg", names("r"), "q", chunk])
+        elif t < 6:
+            ops.append(["reg", names("a"), "a", chunk])
+            anc += chunk
+        elif t < 7:
+            ops.append(["bits", chunk])
+            anc += chunk
+        else:
+            ops.append(["regbits", names("b"), "q", chunk])
+        ids += chunk
+        nxt += s
+        left -= s
+        if rng.integers(0, 5) == 0:
+            ops.append(["clbits", int(rng.integers(1, 3))])
+    if n >= 1 and rng.integers(0, 4) == 0:  # an overlapping register over bits already present
+        sub = [ids[i] for i in rng.permutation(n)[: int(rng.integers(1, n + 1))]]
+        ops.append(["regbits", names("ov"), "q", sub])
+    r = int(rng.integers(0, 6))
+    if r == 0:
+        ops.append(["creg", names("c"), int(rng.integers(1, 4))])
+    elif r == 1:
+        ops.append(["clbits", int(rng.integers(1, 3))])
+        ops.append(["creg", names("c"), int(rng.integers(0, 3))])
+    if rng.integers(0, 3) == 0:
+        ops.insert(int(rng.integers(0, len(ops) + 1)), ["creg", names("m"), int(rng.integers(1, 3))])
+    return ops, ids, anc
+
+
+def rand_layout_final(rng, present, fresh, anc, names, oc_ops):
+    """ops for a final circuit holding the bits `present` (a sub-list of the original's ids, possibly all) and `fresh`
+    new ones, in a random order, across loose bits / several registers / an ancilla register / overlapping registers,
+    optionally re-using whole registers of the original circuit, with classical bits."""
+    ops = []
+    avail = set(present) | set(fresh)
+    placed = []
+
+    def place(ids):
+        placed.extend([i for i in ids if i not in placed])
+
+    # re-use whole registers of the original (as cut_wires does) when all their bits are to be present
+    if rng.integers(0, 3) == 0:
+        for op in oc_ops:
+            if op[0] in ("reg", "regbits") and set(op[3]) <= avail and rng.integers(0, 2):
+                todo = [f for f in fresh if f not in placed]
+                if todo and rng.integers(0, 2):
+                    pre = todo[: int(rng.integers(1, len(todo) + 1))]
+                    ops.append(["bits", pre])
+                    place(pre)
+                ops.append(["regref", op[1]])
+                place(op[3])
+    pool = [i for i in list(present) + list(fresh) if i not in placed]
+    pool = [pool[i] for i in rng.permutation(len(pool))] if rng.integers(0, 8) else pool
+    while pool:
+        s = int(rng.integers(1, len(pool) + 1))
+        chunk, pool = pool[:s], pool[s:]
+        t = int(rng.integers(0, 6))
+        if t < 2:
+            ops.append(["bits", chunk])
+        elif t == 2 and all(i in anc for i in chunk):
+            ops.append(["regbits", names("fa"), "a", chunk])
+        else:
+            ops.append(["regbits", names("f"), "q", chunk])
+        place(chunk)
+        if rng.integers(0, 6) == 0:
+            ops.append(["clbits", int(rng.integers(1, 3))])
+    if placed and rng.integers(0, 3) == 0:  # overlapping registers
+        for _ in range(int(rng.integers(1, 3))):
+            sub = [placed[i] for i in rng.permutation(len(placed))[: int(rng.integers(1, len(placed) + 1))]]
+            ops.append(["regbits", names("fo"), "q", sub])
+    r = int(rng.integers(0, 5))
+    if r == 0:
+        ops.append(["creg", names("fc"), int(rng.integers(1, 5))])
+    elif r == 1:
+        ops.insert(0, ["clbits", int(rng.integers(1, 4))])
+    return ops
+
+
+class Names:
+    def __init__(self):
+        self.i = 0
+
+    def __call__(self, prefix):
+        self.i += 1
+        return f"{prefix}{self.i}"
+
+
+MISMATCH_KINDS = ["one", "one", "one", "one", "less", "less", "less", "zero", "n0", "more", "more"]
+
+
+def gen_expand(rng, w, cases, it):
+    n = rand_n(rng)
+    names = Names()
+    r = int(rng.integers(0, 20))
+    mode = "transform" if r < 6 else "interleave" if r < 12 else "mismatch" if r < 16 else "missing"
+    if mode == "missing" and n == 0:
+        mode = "interleave"
+    oc_ops, oids, anc = rand_layout_original(rng, n, names)
+    nobs = n
+    mkind = None
+    if mode == "mismatch":
+        mkind = MISMATCH_KINDS[int(rng.integers(0, len(MISMATCH_KINDS)))]
+        if mkind == "one":
+            if n == 1:
+                n = int(rng.integers(2, 9))
+                oc_ops, oids, anc = rand_layout_original(rng, n, names)
+            nobs = 1
+        elif mkind == "less":
+            if n < 3:
+                n = int(rng.integers(3, 9))
+                oc_ops, oids, anc = rand_layout_original(rng, n, names)
+            nobs = int(rng.integers(2, n))
+        elif mkind == "zero":
+            if n == 0:
+                n = int(rng.integers(1, 9))
+                oc_ops, oids, anc = rand_layout_original(rng, n, names)
+            nobs = 0
+        elif mkind == "n0":
+            n = 0
+            oc_ops, oids, anc = rand_layout_original(rng, 0, names)
+            nobs = int(rng.integers(1, 4))
+        else:
+            nobs = n + int(rng.integers(1, 4))
+    k = rand_k(rng, 4)
+    cin = rand_canon(rng, nobs, k)
+    case = dict(kind="expand", mode=mode, nobs=nobs, paulis=[[p, l] for p, l in cin], oc_ops=oc_ops, anc=list(anc),
+                gates=[], via=None, fc_ops=None, same_object=False)
+    nclb = sum(op[1] for op in oc_ops if op[0] == "clbits") + sum(op[2] for op in oc_ops if op[0] == "creg")
+    if mode == "transform":
+        gates = []
+        for _ in range(int(rng.integers(0, 7))):
+            g = int(rng.integers(0, 8))
+            if n == 0:
+                break
+            q = int(rng.integers(0, n))
+            if g < 4:
+                gates.append(["cut", q])
+            elif g < 5:
+                gates.append(["h", q])
+            elif g < 7 and n >= 2:
+                q2 = int((q + 1 + rng.integers(0, n - 1)) % n)
+                gates.append(["cx", q, q2])
+            elif nclb > 0:
+                gates.append(["measure", q, int(rng.integers(0, nclb))])
+        case["gates"] = gates
+        case["via"] = ["cut_wires", "cuts_to_moves", "cuts_to_moves", "cut_wires_then_moves"][int(rng.integers(0, 4))]
+    else:
+        nfresh_max = 5 if rng.integers(0, 3) == 0 else 3
+        nf = int(rng.integers(0, nfresh_max + 1))
+        fresh = list(range(n, n + nf))
+        fanc = [f for f in fresh if rng.integers(0, 6) == 0]
+        case["anc"] = list(anc) + fanc
+        present = list(oids)
+        if mode == "missing" or (mode == "mismatch" and n >= 1 and rng.integers(0, 4) == 0):
+            ndrop = 1 if rng.integers(0, 3) else int(rng.integers(1, n + 1))
+            for d in sorted((int(x) for x in rng.permutation(n)[:ndrop]), reverse=True):
+                present.pop(d)
+        if mode == "interleave" and rng.integers(0, 12) == 0:
+            case["same_object"] = True  # final circuit IS the original circuit object
+        elif mode == "interleave" and rng.integers(0, 12) == 0:
+            # final = the original's own registers/bits re-added in the original order plus fresh bits at the end
+            fops = []
+            for op in oc_ops:
+                if op[0] in ("reg", "regbits"):
+                    fops.append(["regref", op[1]])
+                elif op[0] == "bits":
+                    fops.append(["bits", op[1]])
+                else:
+                    fops.append(op if op[0] != "creg" else ["creg", names("k"), op[2]])
+            if fresh:
+                fops.append(["bits", fresh])
+            case["fc_ops"] = fops
+        else:
+            case["fc_ops"] = rand_layout_final(rng, present, fresh, set(case["anc"]), names, oc_ops)
+    run_expand(case)
+    if case["via"]:
+        w.count("expand.transform_call", f"{case['via']}:{case['transform_outcome']}")
+        if case["transform_outcome"] != "ok":
+            return  # the transform itself misbehaved on this marker pattern: that is C03's business
+    o, info = case["impl"], case["refusal"]
+    oq, fq, sh = case["oq"], case["fq"], case["shape"]
+    exp = res_of(o, lambda v: [coq_pauli(c) for c in v])
+    if o[0] == "refused" and info["reason"] is None:
+        why = Opt(some=False)  # a ValueError that is not one of the two documented refusals of the package
+    elif o[0] == "refused" and info["reason"][0] == "count":
+        why = Opt(Opt(Raw(f"(RCount {info['reason'][1]} {info['reason'][2]})")))
+    elif o[0] == "refused":
+        why = Opt(Opt(Raw(f"(RMissing {info['reason'][1]})")))
+    else:
+        why = Opt(Opt(some=False))
+    w.add("expand", "chk_expand", (nobs, oq, fq, [coq_pauli(c) for c in cin], exp, why), case,
+          nontrivial=(o[0] == "ok" and len(fq) > len(oq) and k > 0 and nobs > 0))
+    cases.append(case)
+    w.count("expand.outcome", o[0])
+    w.count("expand.mode", mode if not case["via"] else "transform:" + case["via"])
+    w.count("expand.n_original", len(oq))
+    w.count("expand.n_final", len(fq))
+    w.count("expand.k", k)
+    if o[0] == "refused":
+        w.count("expand.refusal", "undocumented:" + info["raised_in"] if info["reason"] is None else info["reason"][0])
+    if nobs != len(oq):
+        w.count("expand.mismatch", "nobs=0" if nobs == 0 else "n=0" if len(oq) == 0 else "nobs=1" if nobs == 1
+                else "1<nobs<n" if nobs < len(oq) else "nobs>n")
+    w.count("expand.clbits", f"orig={'y' if sh['o_clbits'] else 'n'} final={'y' if sh['f_clbits'] else 'n'}")
+    w.count("expand.ancillas", f"orig={'y' if sh['o_anc'] else 'n'} final={'y' if sh['f_anc'] else 'n'}")
+    w.count("expand.final_qregs", min(sh["f_qregs"], 4))
+    overlap = False
+    for ops in (case["oc_ops"], case["fc_ops"] or []):
+        seen = set()
+        for op in ops:
+            if op[0] in ("reg", "regbits"):
+                if seen & set(op[3]):
+                    overlap = True
+                seen |= set(op[3])
+    w.count("expand.overlapping_register", overlap)
+    w.count("expand.fresh", len([q for q in fq if q not in oq]))
+
+
+# ----------------------------------------------------------------------------------------------
+def generate(rng, tier, outdir):
+    w = CaseWriter(outdir, IMPORTS, case_types=CASE_TYPES)
+    n_restrict = 450 if tier == "quick" else 7000
+    n_decomp = 350 if tier == "quick" else 5000
+    n_expand = 700 if tier == "quick" else 9000
+    cases = []
+    for it in range(n_restrict):
+        gen_restrict(rng, w, cases, it)
+    for it in range(n_decomp):
+        gen_decompose(rng, w, cases, it)
+    n_before = len(cases)
+    for it in range(n_expand):
+        gen_expand(rng, w, cases, it)
+
+    # ---- monitored contracts ----
+    # (a) the property-level oracle accepts every generated case on an unchanged tree (it never sees the Coq model)
+    for c in cases:
+        try:
+            v = judge(c)
+            w.contract("judge_accepts_clean_case", v.get("violates") is False)
+        except Exception:  # noqa: BLE001
+            w.contract("judge_accepts_clean_case", False)
+    # (b) rerun() rebuilds the stored layout: same qubit identities, same shape, same recorded outcome
+    import json
+    step = max(1, len(cases) // 300)
+    for c in cases[::step] + cases[n_before::max(1, (len(cases) - n_before) // 150)]:
+        c2 = rerun(json.loads(json.dumps(c)))
+        keys = ("impl", "oq", "fq", "shape") if c["kind"] == "expand" else ("impl",)
+        w.contract("rerun_reproduces_case", all(json.loads(json.dumps(c[k])) == json.loads(json.dumps(c2[k])) for k in keys))
 
     return w.finish(
-        rule="random Pauli lists (all phases) on 1..8 qubits; restrict: random subsets/orders/repeats + out-of-range stream, "
-        "PauliList and list[Pauli] paths; decompose: 1..4 labels from a pool of exotic hashables; expand: final circuits from "
-        "cut_wires or random interleavings of fresh Qubit objects across loose bits/registers + count-mismatch and missing-qubit "
-        "streams. distinct = distinct Coq case literal; non-trivial = successful call with non-empty selection / >1 label / fresh qubits present"
+        rule="random Pauli lists (all phases; 0..5 rows incl. the empty list) on 0..8 qubits (0 and 8 over-represented). "
+        "restrict: random subsets/orders/full permutations, repeats, out-of-range stream; PauliList and list[Pauli] paths; qubits "
+        "given as list/tuple/range/ndarray/numpy ints. decompose: 1..8 distinct labels from a pool of exotic hashables (incl. "
+        "hash-equal False/0/0.0, True/1/1.0), both paths, len(labels) <, ==, > num_qubits. expand: original circuits from registers "
+        "owning their bits, ancilla registers, loose (ancilla) bits, overlapping registers, classical bits/registers; final circuits "
+        "from cut_wires / _transform_cuts_to_moves / both on random marker patterns, or random interleavings of up to 5 fresh qubits "
+        "across loose bits, several registers, re-used registers, overlapping registers, classical bits; the same circuit object; "
+        "count-mismatch stream (nobs=1, 1<nobs<n, nobs=0, n=0, nobs>n) and missing-qubit stream, each refusal attributed to the frame "
+        "and message that raised it. distinct = distinct Coq case literal; non-trivial = successful call with non-empty selection / "
+        ">1 label / fresh qubits present, at least one observable"
     )
 
 
-# ---- property-level oracle: plain string manipulation ----
+# ----------------------------------------------------------------------------------------------
+# property-level oracle: plain list manipulation on the canonical case; never consults the Coq model
+# ----------------------------------------------------------------------------------------------
+def _norm(plist):
+    return [[int(g[0]), [int(x) for x in g[1]]] for g in plist]
+
+
+MSG_COUNT = "must have the same number of qubits"
+MSG_MISSING = "cannot be found in the `final_circuit`"
+
+
 def judge(case):
     k = case["kind"]
+    got = case["impl"]
     if k == "restrict":
         n, qs, ps = case["n"], case["qs"], case["paulis"]
-        if any(q >= n for q in qs):
+        if any(q >= n or q < 0 for q in qs):
             return dict(violates=False, detail="out-of-range request; property silent")
-        want = [(0, [p[1][q] for q in qs]) for p in ps]
-        got = case["impl"]
-        ok = got[0] == "ok" and [tuple(g) for g in map(tuple, got[1])] == [tuple(x) for x in want] if got[0] == "ok" else False
-        ok = got[0] == "ok" and [[g[0], list(g[1])] for g in got[1]] == [[x[0], list(x[1])] for x in want]
-        return dict(violates=not ok, detail=f"want {want} got {got}")
+        if len(set(qs)) != len(qs):
+            return dict(violates=False, detail="repeated index: not a subset of the qubits; property silent (still compared with the model)")
+        want = [[0, [p[1][q] for q in qs]] for p in ps]
+        ok = got[0] == "ok" and _norm(got[1]) == want
+        return dict(violates=not ok, detail=f"restriction of {ps} to qubits {qs}: want {want} got {got}")
     if k == "decompose":
         labels = [untag(t) for t in case["labels"]]
-        ps = case["paulis"]
+        n, ps = case["n"], case["paulis"]
+        if len(labels) != n:
+            return dict(violates=False, detail="labels do not label exactly the qubits (not a partition of them); property silent")
         groups = {}
         for i, l in enumerate(labels):
             groups.setdefault(l, []).append(i)
-        got = {untag(t): v for t, v in case["impl"]}
-        ok = set(got.keys()) == set(groups.keys())
+        if got[0] != "ok":
+            return dict(violates=True, detail=f"partition {groups}: call did not succeed: {got}")
+        gd = {}
+        for t, v in got[1]:
+            gd[untag(t)] = _norm(v)
+        ok = set(gd.keys()) == set(groups.keys()) and len(gd) == len(got[1])
         if ok:
             for l, qs in groups.items():
-                want = [[0, [p[1][q] for q in qs]] for p in ps]
-                if [[g[0], list(g[1])] for g in got[l]] != want:
+                if gd[l] != [[0, [p[1][q] for q in qs]] for p in ps]:
                     ok = False
-        return dict(violates=not ok, detail=f"groups {groups} got {case['impl']}")
+        if ok:
+            # the restrictions recombine to the original strings
+            for r, p in enumerate(ps):
+                back = [None] * n
+                for l, qs in groups.items():
+                    for pos, q in enumerate(qs):
+                        back[q] = gd[l][r][1][pos]
+                if back != list(p[1]):
+                    ok = False
+        return dict(violates=not ok, detail=f"groups {groups} paulis {ps} got {got}")
     if k == "expand":
-        nobs, oq, fq, ps, got = case["nobs"], case["oq"], case["fq"], case["paulis"], case["impl"]
-        bad = nobs != len(oq) or any(q not in fq for q in oq)
-        if bad:
-            return dict(violates=got[0] != "refused", detail=f"malformed request answered with {got}")
+        if got is None:
+            return dict(violates=False, detail="the circuit transform itself failed; not a C17 case")
+        nobs, oq, fq, ps, info = case["nobs"], case["oq"], case["fq"], case["paulis"], case.get("refusal") or {}
+        missing = [i for i, q in enumerate(oq) if q not in fq]
+        if nobs != len(oq) or missing:
+            doc = MSG_COUNT if nobs != len(oq) else MSG_MISSING
+            ok = got[0] == "refused" and bool(info.get("own_guard")) and doc in str(got[1])
+            what = f"{nobs}-qubit observables for a {len(oq)}-qubit original" if nobs != len(oq) else f"original qubit(s) {missing} absent from the final circuit"
+            return dict(violates=not ok, detail=f"{what}: the documented ValueError ('...{doc}...') raised by the package's own "
+                        f"guard is demanded; got {got} raised at {info.get('raised_in')}: {info.get('raised_at')!r} ({info.get('exc')})")
         want = []
         for ph, lets in ps:
             out = [0] * len(fq)
             for i, q in enumerate(oq):
                 out[fq.index(q)] = lets[i]
             want.append([ph, out])
-        ok = got[0] == "ok" and [[g[0], list(g[1])] for g in got[1]] == want
-        return dict(violates=not ok, detail=f"want {want} got {got}")
+        ok = got[0] == "ok" and _norm(got[1]) == want
+        return dict(violates=not ok, detail=f"oq {oq} fq {fq}: want {want} got {got}")
     raise ValueError(k)
 
 
@@ -243,24 +711,9 @@ def rerun(case):
     """Re-execute the implementation on a stored canonical input (for --replay)."""
     k = case["kind"]
     if k == "restrict":
-        pl = PauliList([mk_pauli(ph, lets) for ph, lets in case["paulis"]])
-        arg = list(pl) if case.get("aslist") else pl
-        r = call_canon(observables_restricted_to_subsystem, case["qs"], arg)
-        case["impl"] = [r[0], canon_plist(r[1]) if r[0] == "ok" else r[1]]
-    elif k == "decompose":
-        pl = PauliList([mk_pauli(ph, lets) for ph, lets in case["paulis"]])
-        labels = [untag(t) for t in case["labels"]]
-        r = call_canon(decompose_observables, pl, labels)
-        case["impl"] = [[tagged(l), canon_plist(v)] for l, v in r[1].items()] if r[0] == "ok" else [r[0], r[1]]
-    elif k == "expand":
-        pl = PauliList([mk_pauli(ph, lets) for ph, lets in case["paulis"]])
-        objs = {}
-        for q in set(case["oq"]) | set(case["fq"]):
-            objs[q] = Qubit()
-        oc = QuantumCircuit()
-        oc.add_bits([objs[q] for q in case["oq"]])
-        fc = QuantumCircuit()
-        fc.add_bits([objs[q] for q in case["fq"]])
-        r = call_canon(expand_observables, pl, oc, fc)
-        case["impl"] = [r[0], canon_plist(r[1]) if r[0] == "ok" else r[1]]
-    return case
+        return call_restrict(case)
+    if k == "decompose":
+        return call_decompose(case)
+    if k == "expand":
+        return run_expand(case)
+    raise ValueError(k)
